@@ -106,7 +106,7 @@ func repoFileHashes(funcs []string) map[string]string {
 	}
 	out := map[string]string{}
 	for p := range pkgs {
-		files, _ := filepath.Glob(filepath.Join("/repo", p, "*.go"))
+		files, _ := filepath.Glob(filepath.Join(repoDir, p, "*.go"))
 		h := sha256.New()
 		for _, f := range files {
 			if strings.HasSuffix(f, "_test.go") {
